@@ -149,4 +149,5 @@ if (true) {
 #[cfg(feature = "verif-hooks")]
 pub mod verif_hooks {
   pub use super::transformation::verif_hooks as transformation;
+  pub use super::rewrite::verif_hooks as rewrite;
 }
